@@ -29,43 +29,21 @@ Inductive shape_eq : dmsg -> dmsg -> Prop :=
     Forall2 field_shape_eq fs fs' -> Forall2 shape_eq ms ms' ->
     shape_eq (DMsg n k fs ms es) (DMsg n k fs' ms' es).
 
-Lemma link_fields_shape syms fpkg scope fs fs' :
-  link_fields syms fpkg scope fs = Ok fs' -> Forall2 field_shape_eq fs fs'.
-Proof.
-  revert fs'. induction fs as [|f r IH]; intros fs' H; cbn in H.
-  - inversion H. constructor.
-  - inv_ok H. inversion H. subst fs'. constructor; [|apply IH; exact E0].
-    unfold field_shape_eq. cbn. repeat split; reflexivity.
-Qed.
-
-Lemma link_msg_eq syms fpkg pre n k fs ms es :
-  link_msg syms fpkg pre (DMsg n k fs ms es) =
-  obind (link_fields syms fpkg (pre ++ [n]) fs) (fun fs' =>
-  obind ((fix go (l : list dmsg) : outcome (list dmsg) :=
-            match l with
-            | [] => Ok []
-            | x :: r => obind (link_msg syms fpkg (pre ++ [n]) x) (fun x' =>
-                        obind (go r) (fun r' => Ok (x' :: r')))
-            end) ms) (fun ms' => Ok (DMsg n k fs' ms' es))).
+Lemma link_msg_eq fpkg pre n k fs ms es :
+  link_msg fpkg pre (DMsg n k fs ms es) =
+  DMsg n k (map (link_field (map dm_name ms) fpkg (pre ++ [n])) fs) (map (link_msg fpkg (pre ++ [n])) ms) es.
 Proof. reflexivity. Qed.
 
-Theorem link_msg_shape syms fpkg : forall m pre m', link_msg syms fpkg pre m = Ok m' -> shape_eq m m'.
+Theorem link_msg_shape fpkg : forall m pre, shape_eq m (link_msg fpkg pre m).
 Proof.
-  induction m as [n k fs ms es IH] using dmsg_ind2. intros pre m' H.
-  rewrite link_msg_eq in H. inv_ok H. inversion H. subst m'. clear H.
-  constructor; [eapply link_fields_shape; exact E|].
-  clear E. revert a0 E0. induction IH as [|x r Hx Hr IHr]; intros out E0.
-  - inversion E0. constructor.
-  - inv_ok E0. inversion E0. subst out. constructor; [eapply Hx; exact E|apply IHr; exact E1].
+  induction m as [n k fs ms es IH] using dmsg_ind2. intros pre. rewrite link_msg_eq. constructor.
+  - induction fs as [|f r IHf]; cbn [map]; constructor; [|exact IHf].
+    unfold field_shape_eq, link_field. cbn. repeat split; reflexivity.
+  - induction IH as [|x r Hx Hr IHr]; cbn [map]; constructor; [apply Hx|exact IHr].
 Qed.
 
-Lemma link_msgs_shape syms fpkg l l' :
-  link_msgs syms fpkg l = Ok l' -> Forall2 shape_eq l l'.
-Proof.
-  revert l'. induction l as [|x r IH]; intros l' H; cbn in H.
-  - inversion H. constructor.
-  - inv_ok H. inversion H. subst l'. constructor; [eapply link_msg_shape; exact E|apply IH; exact E0].
-Qed.
+Lemma link_msgs_shape fpkg l : Forall2 shape_eq l (link_msgs fpkg l).
+Proof. unfold link_msgs. induction l as [|x r IH]; cbn [map]; constructor; [apply link_msg_shape|exact IH]. Qed.
 
 (* ------------------------------------------------------------------ the contract reads shapes only *)
 Lemma forall2_in {A} (R : A -> A -> Prop) l l' a :
@@ -203,10 +181,10 @@ Lemma link_file_main f df df' :
   link_file df = Ok df' -> main_file_ok snake camel screaming f df -> main_file_ok snake camel screaming f df'.
 Proof.
   unfold link_file. intros H. inv_ok H. inversion H. subst df'. clear H.
-  intros (H1 & H2 & H3 & H4 & H5 & H6). pose proof (link_msgs_shape _ _ _ _ E) as HF.
+  intros (H1 & H2 & H3 & H4 & H5 & H6). pose proof (link_msgs_shape (fl_pkg df) (fl_msgs df)) as HF.
   unfold main_file_ok. cbn [fl_path fl_pkg fl_svcs fl_msgs fl_enums].
   split; [exact H1|]. split; [exact H2|].
-  split; [rewrite H3 in E0; cbn in E0; inversion E0; reflexivity|].
+  split; [rewrite H3 in E; cbn in E; inversion E; reflexivity|].
   split; [rewrite <- H4; symmetry; eapply forall2_map_eq; [exact shape_name|exact HF]|].
   split; [exact H5|].
   intros e Hin. specialize (H6 e Hin). destruct nested_shape as [Hn _].
@@ -292,97 +270,29 @@ Qed.
 
 End Package.
 
-(* ================================================================== relative names *)
-(* When does the relative name of an inline type denote the declared type?  Exactly the
-   defect of finding 1: a nested type named like the root message captures the lookup.
-   If no symbol of the file (of length >= 2) ends in the name it starts with, every relative
-   name Root.Path.Name written by the converter resolves to the declared path. *)
-Lemma list_eqb_eq {A} (eqb : A -> A -> bool) (Heq : forall a c, eqb a c = true <-> a = c) l l' :
-  list_eqb eqb l l' = true <-> l = l'.
+(* ================================================================== type names after the link step *)
+(* fix 2ef7c92: the name of an inline type, Root.Path.Name, becomes .<package>.Root.Path.Name
+   whatever else is nested in the file (it no longer matters whether a nested type is named
+   like the root message); the bare name of a map entry becomes the entry nested in the message
+   of the field. *)
+Theorem link_name_inline nested fpkg scope parts :
+  rel_name parts <> [] -> hd 0 (rel_name parts) <> 46 -> ~ In (rel_name parts) nested ->
+  link_name nested fpkg scope (rel_name parts) = abs_name fpkg parts.
 Proof.
-  revert l'. induction l as [|x r IH]; destruct l' as [|y s]; cbn; try (split; [discriminate|discriminate]).
-  - split; reflexivity.
-  - rewrite andb_true_iff, Heq, IH. split; [intros [-> ->]; reflexivity|intros H; inversion H; auto].
+  intros Hne Hd Hni. unfold link_name. destruct (rel_name parts) as [|c r] eqn:E; [contradiction|].
+  cbn [hd] in Hd. apply N.eqb_neq in Hd. rewrite Hd.
+  destruct (existsb (str_eqb (c :: r)) nested) eqn:Ex.
+  - exfalso. apply Hni. apply existsb_exists in Ex. destruct Ex as (x & Hx & He). apply str_eqb_eq in He. subst. exact Hx.
+  - unfold abs_name. unfold rel_name in E. rewrite E. reflexivity.
 Qed.
 
-Lemma sym_mem_in p syms : sym_mem p syms = true <-> In p syms.
+Theorem link_name_entry nested fpkg scope en :
+  en <> [] -> hd 0 en <> 46 -> In en nested ->
+  link_name nested fpkg scope en = abs_name fpkg (scope ++ [en]).
 Proof.
-  unfold sym_mem. rewrite existsb_exists. split.
-  - intros (x & Hx & He). apply (list_eqb_eq str_eqb str_eqb_eq) in He. subst. exact Hx.
-  - intros H. exists p. split; [exact H|]. apply (list_eqb_eq str_eqb str_eqb_eq). reflexivity.
-Qed.
-
-Definition capture_free (syms : list (list str)) : Prop :=
-  forall q, In q syms -> (2 <= length q)%nat -> last q [] <> hd [] q.
-
-Definition starts (root : str) (l : list str) : Prop :=
-  match l with [] => True | y :: _ => y = root end.
-
-Lemma starts_app_hd root l x : l <> [] -> starts root l -> hd [] (l ++ x) = root.
-Proof. destruct l; [contradiction|]. intros _ H. exact H. Qed.
-
-Lemma starts_prefix root l x : starts root (l ++ [x]) -> starts root l.
-Proof. destruct l; [intros _; exact I|]. intros H. exact H. Qed.
-
-Theorem resolve_rel_capture_free syms root parts :
-  capture_free syms -> In [root] syms -> In parts syms ->
-  forall scope_rev, starts root (rev scope_rev) ->
-  resolve_rel syms scope_rev root parts = Ok parts.
-Proof.
-  intros Hcf Hroot Hparts. induction scope_rev as [|x outer IH]; intros Hst.
-  - cbn [resolve_rel]. rewrite (proj2 (sym_mem_in _ _) Hroot), (proj2 (sym_mem_in _ _) Hparts). reflexivity.
-  - cbn [resolve_rel]. cbn [rev] in Hst |- *.
-    destruct (sym_mem ((rev outer ++ [x]) ++ [root]) syms) eqn:Hm.
-    + exfalso. apply sym_mem_in in Hm. apply (Hcf _ Hm).
-      * rewrite !app_length. cbn. lia.
-      * rewrite last_last. rewrite (starts_app_hd root (rev outer ++ [x]) [root]); [reflexivity| |exact Hst].
-        destruct (rev outer); discriminate.
-    + apply IH. eapply starts_prefix. exact Hst.
-Qed.
-
-(* the converse is what the refutation witnesses show: with foo.v1.Foo.Foo in the file, the name
-   Foo.X written inside Foo resolves below Foo.Foo *)
-
-(* strings.Split inverts the join of dot-free, non-empty components *)
-Definition nodot (s : str) : Prop := s <> [] /\ forallb (fun c => negb (c =? 46)) s = true.
-
-Lemma split_on_nodot s cur rest :
-  forallb (fun c => negb (c =? 46)) s = true ->
-  split_on 46 (s ++ rest) cur = split_on 46 rest (rev s ++ cur).
-Proof.
-  revert cur. induction s as [|c r IH]; intros cur H; cbn in *; [reflexivity|].
-  apply andb_true_iff in H. destruct H as [Hc Hr]. apply negb_true_iff in Hc. rewrite Hc.
-  rewrite IH by exact Hr. rewrite <- app_assoc. reflexivity.
-Qed.
-
-Lemma split_join_dot parts : parts <> [] -> Forall nodot parts -> split 46 (join dot parts) = parts.
-Proof.
-  unfold split. intros Hne HF. induction HF as [|x r [Hx Hd] Hr IH]; [contradiction|].
-  destruct r as [|y s].
-  - cbn [join]. replace (split_on 46 x []) with (split_on 46 (x ++ []) []) by (rewrite app_nil_r; reflexivity).
-    rewrite split_on_nodot by exact Hd. cbn. rewrite app_nil_r, rev_involutive. reflexivity.
-  - change (join dot (x :: y :: s)) with (x ++ dot ++ join dot (y :: s)).
-    rewrite split_on_nodot by exact Hd. unfold dot. cbn [app split_on N.eqb Pos.eqb].
-    rewrite app_nil_r, rev_involutive. f_equal. apply IH. discriminate.
-Qed.
-
-(* the relative name of an inline type below root, written in a message whose path starts
-   with root, links to the fully qualified name of the declared path *)
-Theorem link_name_inline syms fpkg scope parts root rest :
-  capture_free syms -> parts = root :: rest -> Forall nodot parts ->
-  In [root] syms -> In parts syms -> starts root scope ->
-  link_name syms fpkg scope (rel_name parts) = Ok (abs_name fpkg parts).
-Proof.
-  intros Hcf -> Hnd Hroot Hparts Hst. unfold link_name, rel_name.
-  assert (Hsp : split 46 (join dot (root :: rest)) = root :: rest) by (apply split_join_dot; [discriminate|exact Hnd]).
-  inversion Hnd as [|r0 l0 [Hr0 Hr1] Hl]. subst.
-  destruct (join dot (root :: rest)) as [|c tl] eqn:Ej.
-  - exfalso. destruct root; [apply Hr0; reflexivity|]. destruct rest; discriminate.
-  - assert (Hc : (c =? 46) = false).
-    { destruct root as [|c0 r0']; [exfalso; apply Hr0; reflexivity|].
-      assert (c = c0) by (destruct rest; cbn in Ej; inversion Ej; reflexivity). subst c0.
-      cbn in Hr1. apply andb_true_iff in Hr1. destruct Hr1 as [Hr1 _]. apply negb_true_iff in Hr1. exact Hr1. }
-    rewrite Hc, Hsp. rewrite (resolve_rel_capture_free syms root (root :: rest) Hcf Hroot Hparts).
-    + reflexivity.
-    + rewrite rev_involutive. exact Hst.
+  intros Hne Hd Hin. unfold link_name. destruct en as [|c r]; [contradiction|].
+  cbn [hd] in Hd. apply N.eqb_neq in Hd. rewrite Hd.
+  assert (Ex : existsb (str_eqb (c :: r)) nested = true).
+  { apply existsb_exists. exists (c :: r). split; [exact Hin|apply str_eqb_refl]. }
+  rewrite Ex. reflexivity.
 Qed.
